@@ -2048,6 +2048,13 @@ class Cluster(object):
             if (not was_up and not expect_host_to_be_down) or host.is_currently_reconnecting():
                 return
 
+            if was_up is False and self.profile_manager.distance(host) == HostDistance.IGNORED:
+                # already marked down, and the policies ignore it (a policy may ignore a host
+                # exactly while it is down): everybody was told when it was marked down, and no
+                # reconnector is started for an ignored host, so there is none to recognise
+                # "already handled" by
+                return
+
             if not was_up and host._currently_handling_node_up:
                 # the host was not up and on_up() is trying to bring it up: that either marks it up
                 # or tells the policies and starts a new reconnector itself
